@@ -32,11 +32,13 @@ static long m_strtol10(const char *s, char **end)
     else if (*p == '+') p++;
     if (!m_isdigit((unsigned char)*p)) { if (end) *end = (char *)s; return 0; }
     unsigned long acc = 0; bool ovf = false;
-    const unsigned long lim = neg ? (unsigned long)LONG_MAX + 1 : (unsigned long)LONG_MAX;
+    /* acc*10 + d <= lim, without a run-time division (64-bit dividers stall the SAT solver) */
+    const unsigned long lim_q = (unsigned long)LONG_MAX / 10;                 /* same quotient for LONG_MAX and LONG_MAX+1 */
+    const unsigned lim_r = neg ? (unsigned)(((unsigned long)LONG_MAX + 1) % 10) : (unsigned)((unsigned long)LONG_MAX % 10);
     while (m_isdigit((unsigned char)*p)) {
 	unsigned d = (unsigned)(*p - '0');
-	if (acc > (lim - d) / 10) ovf = true;
-	else acc = acc * 10 + d;
+	if (ovf || acc > lim_q || (acc == lim_q && d > lim_r)) ovf = true;
+	else acc = (acc << 3) + (acc << 1) + d;
 	p++;
     }
     if (end) *end = (char *)p;
@@ -133,6 +135,17 @@ static int m_vsnprintf(char *buf, size_t cap, const char *fmt, va_list ap)
 	    else v = lng ? (long long)va_arg(ap, unsigned long) : (long long)va_arg(ap, unsigned);
 	    unsigned long long u = v < 0 ? 0ULL - (unsigned long long)v : (unsigned long long)v;
 	    if (v < 0) M_EMIT('-');
+	    if (u < 100000) {
+		/* division-free digit extraction (64-bit dividers stall the SAT solver) */
+		static const unsigned pw[5] = { 10000, 1000, 100, 10, 1 };
+		unsigned r = (unsigned)u; bool started = false;
+		for (int q = 0; q < 5; q++) {
+		    unsigned dgt = 0;
+		    for (int t = 0; t < 9; t++) if (r >= pw[q]) { r -= pw[q]; dgt++; }
+		    if (dgt != 0 || started || q == 4) { M_EMIT((char)('0' + dgt)); started = true; }
+		}
+		break;
+	    }
 	    char tmp[20]; int k = 0;
 	    do { tmp[k++] = (char)('0' + u % 10); u /= 10; } while (u && k < 20);
 	    while (k) { k--; M_EMIT(tmp[k]); }
